@@ -66,6 +66,15 @@ def check_tables(ctx, m, dofs, T, sig, element_counts):
     fkey = {frozenset(int(v) for v in m.facets[:, f]): f for f in range(m.facets.shape[1])}
     ekey = {frozenset(int(v) for v in m.edges[:, e]): e for e in range(m.edges.shape[1])} if (d == 3 and ne) else {}
     nd, edf, fd, idf = dofs.nodal_dofs, dofs.edge_dofs, dofs.facet_dofs, dofs.interior_dofs
+    if nd.shape != (nn, m.nvertices) or idf.shape != (ni, nc):
+        ctx.fail('table_shape', f'nodal {nd.shape} interior {idf.shape}', **sig)
+        return
+    if d == 3 and ne and edf.shape != (ne, m.edges.shape[1]):
+        ctx.fail('table_shape', f'edge table {edf.shape}, expected {(ne, m.edges.shape[1])}', **sig)
+        return
+    if d >= 2 and nf and fd.shape != (nf, m.facets.shape[1]):
+        ctx.fail('table_shape', f'facet table {fd.shape}, expected {(nf, m.facets.shape[1])}', **sig)
+        return
     # tables disjoint and covering
     parts = [nd.ravel()]
     if d == 3 and ne:
@@ -76,9 +85,6 @@ def check_tables(ctx, m, dofs, T, sig, element_counts):
     allt = np.concatenate(parts)
     if len(allt) != N or len(np.unique(allt)) != N:
         ctx.fail('tables_partition', f'tables hold {len(allt)} numbers, {len(np.unique(allt))} distinct, N={N}', **sig)
-        return
-    if nd.shape != (nn, m.nvertices) or idf.shape != (ni, nc):
-        ctx.fail('table_shape', f'nodal {nd.shape} interior {idf.shape}', **sig)
         return
 
     def cell_expected(c):
@@ -130,6 +136,29 @@ def check_tables(ctx, m, dofs, T, sig, element_counts):
                 return
 
 
+def expected_counts(desc, sdim):
+    """(nodal, edge, facet, interior) DOF counts of a descriptor: leaf counts are read from a fresh
+    leaf instance, the wrappers' arithmetic is written here (documented behaviour of the wrappers)"""
+    from ..cases import build_element
+    c = desc['cls']
+    if c == 'ElementVector':
+        n = desc.get('dim', sdim)
+        return tuple(n * x for x in expected_counts(desc['of'], sdim))
+    if c == 'ElementDG':
+        a = expected_counts(desc['of'], sdim)
+        e = build_element(desc['of'])
+        rd = e.refdom
+        nedges = len(rd.edges) if (rd.edges and sdim == 3) else 0
+        nfacets = len(rd.facets) if sdim >= 2 else 0
+        tot = a[0] * rd.nnodes + a[1] * nedges + a[2] * nfacets + a[3]
+        return (0, 0, 0, tot)
+    if c == 'ElementComposite':
+        parts = [expected_counts(d, sdim) for d in desc['of']]
+        return tuple(sum(p[i] for p in parts) for i in range(4))
+    e = build_element(desc)
+    return (e.nodal_dofs, e.edge_dofs if sdim == 3 else 0, e.facet_dofs if sdim >= 2 else 0, e.interior_dofs)
+
+
 def body_real(case, ctx):
     import skfem
     from skfem import BilinearForm, CellBasis, FacetBasis
@@ -148,7 +177,15 @@ def body_real(case, ctx):
     ctx.nt(kinds_with_dofs >= 2 or case['elem']['cls'] in ('ElementVector', 'ElementDG', 'ElementComposite')
            or any(f.startswith('renum') or f == 'local-order' for f in desc['feat']))
     T = topo_of_mesh(m)
+    want_counts = expected_counts(case['elem'], m.dim())
+    have = (e.nodal_dofs, e.edge_dofs if m.dim() == 3 else 0, e.facet_dofs if m.dim() >= 2 else 0, e.interior_dofs)
+    if have != want_counts:
+        ctx.fail('wrapper_counts', f'element announces (nodal, edge, facet, interior) = {have}, expected {want_counts}', **sig)
+        return
     basis = CellBasis(m, e, intorder=2)
+    if hasattr(e, 'doflocs') and len(e.doflocs) != basis.element_dofs.shape[0]:
+        ctx.fail('doflocs_rows', f'{len(e.doflocs)} local DOF locations for {basis.element_dofs.shape[0]} local DOFs', **sig)
+        return
     if basis.N != basis.dofs.N:
         ctx.fail('basis_N', '', **sig)
 
